@@ -975,29 +975,24 @@ func ruleC17Root(r *Run) {
 		for _, c := range callsToFn(f, get) {
 			pat := c.Common().Args[1]
 			okPat := false
-			switch x := pat.(type) {
-			case *ssa.BinOp:
-				if s, ok := constString(x.Y); ok && strings.HasPrefix(s, "/{file:") && strings.HasSuffix(s, "}") {
-					_, isP := x.X.(*ssa.Parameter)
-					okPat = isP
+			// the pattern as a template: constant pieces and holes, whether it is written with + or with Sprintf("%s...")
+			if tpl, okT := strTemplate(pat); okT && len(tpl) >= 2 && tpl[0].hole != nil {
+				_, isP := tpl[0].hole.(*ssa.Parameter)
+				rest := ""
+				var holes []ssa.Value
+				for _, pc := range tpl[1:] {
+					if pc.hole != nil {
+						rest += "\x00"
+						holes = append(holes, pc.hole)
+					} else {
+						rest += pc.text
+					}
 				}
-			case *ssa.Call:
-				if calleeName(x) == "fmt.Sprintf" {
-					if fs, ok := constString(x.Call.Args[0]); ok && strings.HasPrefix(fs, "%s/{file:") && strings.HasSuffix(fs, "}") {
-						okPat = true
+				if isP && strings.HasPrefix(rest, "/{file:") && strings.HasSuffix(rest, "}") && strings.Count(rest, "{") == 1 {
+					okPat = true
+					if len(holes) > 0 {
 						// C17-EXT
-						el := litElems(x.Call.Args[1])
-						okExt := len(el) == 2 && strings.HasSuffix(fs, `\.(?:%s)}`)
-						if okExt {
-							p0, p1 := el[0], el[1]
-							if mi, ok := p0.(*ssa.MakeInterface); ok {
-								p0 = mi.X
-							}
-							if mi, ok := p1.(*ssa.MakeInterface); ok {
-								p1 = mi.X
-							}
-							okExt = p0 == ssa.Value(f.Params[1]) && p1 == ssa.Value(f.Params[3])
-						}
+						okExt := rest == "/{file:.+\\.(?:\x00)}" && len(holes) == 1 && tpl[0].hole == ssa.Value(f.Params[1]) && len(f.Params) > 3 && holes[0] == ssa.Value(f.Params[3])
 						r.Check("C17-EXT", FuncName(f)+":extension filter in the pattern", w.InstrPos(c), okExt, map[bool]string{true: "the allowed extensions are part of the route regex ({file:.+\\.(?:exts)}), so only such paths reach the handler", false: "the extension list is not compiled into the route pattern"}[okExt])
 					}
 				}
@@ -1370,3 +1365,95 @@ func (b *zzVerifMemo) Build() []string {
 	return b.vars
 }
 `
+
+// strTemplate renders a string-valued expression as constant pieces and holes:
+// a + b + c, fmt.Sprintf with %s verbs only, constants. ok=false for anything else.
+type tplPiece struct {
+	text string
+	hole ssa.Value
+}
+
+func strTemplate(v ssa.Value) ([]tplPiece, bool) {
+	switch x := v.(type) {
+	case *ssa.Const:
+		if sv, ok := constString(x); ok {
+			return []tplPiece{{text: sv}}, true
+		}
+		return nil, false
+	case *ssa.ChangeType:
+		return strTemplate(x.X)
+	case *ssa.BinOp:
+		if x.Op != token.ADD {
+			return nil, false
+		}
+		l, ok1 := strTemplate(x.X)
+		rr, ok2 := strTemplate(x.Y)
+		if !ok1 || !ok2 {
+			return nil, false
+		}
+		return mergeTpl(append(l, rr...)), true
+	case *ssa.Call:
+		if calleeName(x) == "fmt.Sprintf" {
+			fs, ok := constString(x.Call.Args[0])
+			if !ok {
+				return nil, false
+			}
+			args := litElems(x.Call.Args[1])
+			var out []tplPiece
+			ai := 0
+			for i := 0; i < len(fs); i++ {
+				if fs[i] != '%' {
+					out = append(out, tplPiece{text: string(fs[i])})
+					continue
+				}
+				if i+1 >= len(fs) {
+					return nil, false
+				}
+				i++
+				switch fs[i] {
+				case '%':
+					out = append(out, tplPiece{text: "%"})
+				case 's':
+					if ai >= len(args) {
+						return nil, false
+					}
+					a := args[ai]
+					ai++
+					if mi, ok := a.(*ssa.MakeInterface); ok {
+						a = mi.X
+					}
+					if bt, ok := a.Type().Underlying().(*types.Basic); !ok || bt.Kind() != types.String {
+						return nil, false
+					}
+					sub, _ := strTemplate(a)
+					if sub == nil {
+						sub = []tplPiece{{hole: a}}
+					}
+					out = append(out, sub...)
+				default:
+					return nil, false
+				}
+			}
+			if ai != len(args) {
+				return nil, false
+			}
+			return mergeTpl(out), true
+		}
+	}
+	if bt, ok := v.Type().Underlying().(*types.Basic); ok && bt.Kind() == types.String {
+		return []tplPiece{{hole: v}}, true
+	}
+	return nil, false
+}
+
+func mergeTpl(in []tplPiece) []tplPiece {
+	var out []tplPiece
+	for _, p := range in {
+		if p.hole == nil && len(out) > 0 && out[len(out)-1].hole == nil {
+			out[len(out)-1].text += p.text
+			continue
+		}
+		out = append(out, p)
+	}
+	return out
+}
